@@ -208,9 +208,10 @@ pub fn gen(tier: &str, rng: &mut Rng, emit: &mut Emit) {
     }
     // CFMWS: all 8 InterleaveWays with matching and non-matching target counts
     for (code, n) in WAYS {
-        let mut counts = vec![n, 0, n - 1, n + 1, 2 * n, 17];
-        counts.push(rng.below(20));
-        counts.dedup();
+        // every target count 0..=18 against every number of ways (only the matching one is in the domain), and twice the ways
+        let mut counts: Vec<u64> = (0..=18).collect();
+        counts.push(2 * n);
+        counts.push(n);
         for nt in counts {
             let bl = rand_builders(rng);
             let op = cfmws_op(rng, code, nt, &bl);
